@@ -237,7 +237,7 @@ def cases(ctx):
     # (2) order independence
     yield Case('h_reset', 'm', nontrivial=False, tag='reset', domain=False)
     names = G.op_names()
-    for _ in range(ctx.n(12, 300)):
+    for _ in range(ctx.n(12, 90)):
         n = rng.choice([2, 3, 4]) if rng.random() < 0.8 else rng.randrange(5, 9)
         tx = G.gen_tx(rng, names, kind='segwit', max_in=n, max_out=3, min_out=n if n <= 3 else 1, big=False)
         while len(tx.inputs) != n:
